@@ -30,7 +30,7 @@ FILES = {"COND": 'combine(name="top", deps=["//a/b:t", "//a:x"])\n', "a/COND": C
          "defs.cond": 'WHERE = "project-wide"\n', "a/defs.cond": 'WHERE = "package-a"\n', "a/b/defs.cond": 'WHERE = "package-ab"\n',
          "nocond/defs.cond": 'WHERE = "nocond"\n', "a/local.cond": 'LOCAL = "a-local"\n', "local.cond": 'LOCAL = "root-local"\n',
          "a/b/local.cond": 'LOCAL = "ab-local"\n'}
-DIRS = [".", "a", "a/b", "nocond", "nocond/deep", "cond-out", "cond-out/a"]
+DIRS = [".", "a", "a/b", "nocond", "nocond/deep", "cond-out", "cond-out/a", "cond-out/a/zz.task.77", "cond-out/a/zz.task.77/sub"]
 BEH = {"//a:fail": {"status": 256 * 3}}
 
 
